@@ -18,6 +18,7 @@ One Python AST renders (a) the staged mimium source, (b) the S-expression the Le
 arithmetic done here in Python floats) as a plain coregen program (source + S-expression for `drv_prog`).
 """
 import coregen
+coregen.FRAC_DELAY = False     # the staging checks compare expanded TREES, literals as text: delay maxima stay `N.0`
 from coregen import Node, Fn, Prog, Rng, F, T, f64bits, hex16
 
 # ---------------------------------------------------------------------------------------------------------------
